@@ -9,7 +9,8 @@ from vlib import (HARNESS, Verdict, build_harness, run_harness, tlc_check, tlc_t
                   split_behaviours, load_known)
 
 MBASE = {"Handles": {"h1"}, "Bodies": {"small"}, "ParentChoices": {"latest", "prev", "nil", "unknown"},
-         "Calls": {"AV", "GC"}, "MaxLen": 5, "Emit": False, "DevFork": False}
+         "Calls": {"AV", "GC"}, "MaxLen": 5, "Emit": False, "DevFork": False,
+         "SingleSnap": False, "TrimRule": "none", "OlderSnaps": True}
 
 
 def mconsts(**kw):
@@ -18,9 +19,9 @@ def mconsts(**kw):
     return c
 
 
-def chain_mc(v, wd, name, c, timeout=600, expect=None):
+def chain_mc(v, wd, name, c, timeout=600, expect=None, invariants=("VersionInvariant",)):
     cfg = write_cfg(os.path.join(wd, name + ".cfg"), c, init="MInit", next_="MNext",
-                    invariants=["VersionInvariant"])
+                    invariants=list(invariants))
     r = tlc_check(wd, name, "MCChain.tla", cfg, timeout=timeout)
     log(f"[mc] {name}: {r['distinct']} distinct / {r['states']} generated, depth {r['depth']}, "
         f"{r['wall_s']}s, violated={r['violated']}")
@@ -62,8 +63,26 @@ def known_match(pid, backend, lines, event):
     return None
 
 
-def chain_conform(v, wd, name, backend, behaviours, snapshots=True, max_failures=4, git_wrap=False):
-    """behaviours: list of dicts with 'steps' (+ optional 'converge', 'walk')."""
+def count_discards(trace):
+    """GC events answered 'no such version' for a parent whose child was accepted earlier in the
+    same behaviour: versions the backend has discarded (git cleanup after a snapshot)."""
+    n, child = 0, {}
+    for l in open(trace):
+        e = json.loads(l)
+        if e.get("a") == "Reset":
+            child = {}
+        elif e.get("a") == "AV" and e.get("res") == "ok":
+            child[e["parent"]] = e["ver"]
+        elif e.get("a") == "GC" and e.get("res") == "none" and e.get("parent") in child:
+            n += 1
+    return n
+
+
+def chain_conform(v, wd, name, backend, behaviours, snapshots=True, max_failures=4, git_wrap=False,
+                  trim=False, expect_covers=True):
+    """behaviours: list of dicts with 'steps' (+ optional 'converge', 'walk', 'old_epoch').
+    trim: the backend may discard old versions covered by its snapshot (git with backdated
+    commits); expect_covers: the snapshot it serves must then cover everything discarded."""
     if not behaviours:
         v.tool_errors.append(f"{name}: no behaviours")
         return
@@ -81,7 +100,12 @@ def chain_conform(v, wd, name, backend, behaviours, snapshots=True, max_failures
     # git sequences take seconds each (dozens of git processes); leave room on a loaded machine
     run_harness(args, timeout=max(3000, 150 * len(behaviours)) if git_wrap else 3000)
     log(f"[run] {name}: harness {_t.time() - _t0:.1f}s")
-    tcfg = write_cfg(os.path.join(wd, name + ".trace.cfg"), {"WithSnapshots": snapshots},
+    if trim:
+        nd = count_discards(trace)
+        v.extra["discards_observed"] = v.extra.get("discards_observed", 0) + nd
+        log(f"[run] {name}: {nd} reads of versions the backend had discarded")
+    tcfg = write_cfg(os.path.join(wd, name + ".trace.cfg"),
+                     {"WithSnapshots": snapshots, "CanTrim": trim, "ExpectCovers": expect_covers},
                      spec="TSpec", invariants=["VersionInvariant"], postcondition="Accepted")
     stimuli = [json.loads(l) for l in open(stim)]
     cur = trace
@@ -133,3 +157,26 @@ def chain_conform(v, wd, name, backend, behaviours, snapshots=True, max_failures
         v.samples.append(behaviours[0])
     log(f"[conform] {name} on {backend}: {len(behaviours)} call sequences, {v.traces} accepted so "
         f"far, new failures: {failures}, known: {sorted(seen_known)}, {nev} events")
+
+
+def trim_selftest(v, wd, name):
+    """Binding self-test for the discarding clause: the recorded trace of a retention family with
+    every version marked as recent ("old": false) must be REJECTED - a backend may answer 'no
+    such version' for a version it holds only if that version is beyond the retention age."""
+    trace = os.path.join(wd, name + ".trace.ndjson")
+    if not os.path.exists(trace) or not count_discards(trace):
+        return
+    bad = os.path.join(wd, name + ".selftest.ndjson")
+    with open(bad, "w") as f:
+        for l in open(trace):
+            e = json.loads(l)
+            if e.get("a") == "AV":
+                e["old"] = False
+            f.write(json.dumps(e) + "\n")
+    tcfg = os.path.join(wd, name + ".trace.cfg")
+    r = tlc_trace(wd, name + ".selftest", "TraceChain.tla", tcfg, bad)
+    ok = (not r["accepted"]) and r["rejected_at"] is not None
+    v.extra.setdefault("selftests", []).append({"name": name + ": discards of recent versions rejected", "ok": ok})
+    log(f"[selftest] {name}: trace with discards of recent versions rejected: {ok}")
+    if not ok:
+        v.tool_errors.append(f"self-test {name}: a trace in which recent versions are discarded was accepted")
